@@ -86,7 +86,7 @@ func stepKind(s pipeline.Step) string {
 
 func checkC15(c *run.Ctx) {
 	types := []*string{nil}
-	for _, t := range []string{"command", "script", "wait", "waiter", "block", "input", "manual", "trigger", "group", "nope", "", "Command", "steps"} {
+	for _, t := range []string{"command", "script", "wait", "waiter", "block", "input", "manual", "trigger", "group", "nope", "", "Command", "steps", "wait ", " trigger", "block\n", "\tcommand"} {
 		t := t
 		types = append(types, &t)
 	}
@@ -335,7 +335,7 @@ func checkC15(c *run.Ctx) {
 		}
 	}
 	c.Finish("exploration",
-		"every subset of the ten kind-determining keys (each with a well-typed value) x `type` in {absent, the nine documented names, unknown names, empty string, a case variant} x six extra-key variants (none, benign, the empty key, alias-named keys, twelve random extras plus a null-valued empty key, a quoted `<<` key whose mapping value holds kind-determining keys), key order shuffled, each as a top-level step and inside a group, as JSON and as YAML: the dynamic type of the parsed step and the sentinel inside the warning are compared with the rule table written out in the harness; then all five scalar words and ~200 non-words in three positions; then sequences of 3-60 fallbacks of one cause followed by one of the other, where the warning must still identify both causes and report at least one cause per fallback. distinct_nontrivial counts distinct (key subset, type, extras) rows",
+		"every subset of the ten kind-determining keys (each with a well-typed value) x `type` in {absent, the nine documented names, unknown names, empty string, a case variant, documented names padded with a blank, tab or newline} x six extra-key variants (none, benign, the empty key, alias-named keys, twelve random extras plus a null-valued empty key, a quoted `<<` key whose mapping value holds kind-determining keys), key order shuffled, each as a top-level step and inside a group, as JSON and as YAML: the dynamic type of the parsed step and the sentinel inside the warning are compared with the rule table written out in the harness; then all five scalar words and ~200 non-words in three positions; then sequences of 3-60 fallbacks of one cause followed by one of the other, where the warning must still identify both causes and report at least one cause per fallback. distinct_nontrivial counts distinct (key subset, type, extras) rows",
 		map[string]any{"exhaustive": true, "exhaustive_note": "the key-subset x type x extra-variant table is enumerated completely; scalar non-words are a sample"},
 		[]string{"a non-string `type` is a hard error by design and is not in the table", "warning text is not checked"})
 }
